@@ -48,3 +48,58 @@ def emit_number(d: Union[None, bool, int, float]) -> bool:
     post: _
     """
     return hx.ok(_check(d))
+
+
+# ---------------------------------------------------------------- reading back declared defaults (FINITE)
+def _default_sites():
+    from stone.ir import is_struct_type
+    from vlib import fixtures
+    out = []
+    for group, pkg, nss in (('shapes', 'catgen', ('cat', 'cat2')), ('client2', 'cl2gen', ('class',)), ('holes', 'exgen', ('ex',))):
+        api = fixtures.api_for(group)
+        for nsname in nss:
+            for dt in api.namespaces[nsname].data_types:
+                if is_struct_type(dt):
+                    for f in dt.fields:
+                        if f.has_default:
+                            out.append((group, pkg, nsname, dt.name, f.name))
+    return out
+
+
+try:
+    SITES = _default_sites()
+except Exception:          # fixtures of another property's run: the harness below is then not instantiated
+    SITES = []
+
+
+def _read_default(k):
+    from stone.backends.python_helpers import fmt_class
+    from stone.ir import TagRef
+    from vlib import fixtures
+    group, pkg, nsname, tname, fname = SITES[k]
+    api = fixtures.api_for(group)
+    f = [x for x in api.namespaces[nsname].data_type_by_name[tname].fields if x.name == fname][0]
+    modname = {'class': 'class_'}.get(nsname, nsname)
+    cls = getattr(fixtures.module(pkg, modname), fmt_class(tname))
+    got = getattr(cls(), fname)
+    want = f.default
+    if isinstance(want, TagRef):
+        umod = fixtures.module(pkg, {'class': 'class_'}.get(want.union_data_type.namespace.name,
+                                                             want.union_data_type.namespace.name))
+        ucls = getattr(umod, fmt_class(want.union_data_type.name))
+        # an inherited tag is the parent union's ready instance; parent unions are valid where a child is expected (C08)
+        return issubclass(ucls, type(got)) and hasattr(got, '_tag') and got._tag == want.tag_name and got._value is None
+    return got == want and type(got) is type(want)
+
+
+@hx.harness(props=['C10'], targets=['harness.c10_emit:_read_default'],
+            bound='every defaulted struct field of the shapes, client2 and holes catalogues (finite): reading the field of a '
+                  'fresh instance of the generated class returns exactly the declared default (same value and kind; a ready '
+                  'union instance for a tag default, also across namespaces and for unions declared after the struct)',
+            budget=(100, 300))
+def default_readback(k: int) -> bool:
+    """
+    pre: 0 <= k < len(SITES)
+    post: _
+    """
+    return hx.ok(_read_default(int(k)))
